@@ -95,8 +95,11 @@ Arb(n) == UNION {[1..k -> ArbAlpha] : k \in 0..n}
 IssuedBy(secret) == {IssueV1(secret)} \cup {IssueV2(secret, MaskTab[m], t) : m \in Masks, t \in Ts}
 Tag(kind, s) == [kind |-> kind, s |-> s]
 
+(* version-2 strings that decode to the EMPTY secret (never acceptable) *)
+Empties == {IssueV2(<<>>, MaskTab[m], t) : m \in Masks, t \in Ts}
 CookiesOf ==
     {Tag("issued", s) : s \in IssuedBy(S1)}
+    \cup {Tag("empty", s) : s \in Empties}
     \cup {Tag("mut", s) : s \in (UNION {Muts(x) : x \in IssuedBy(S1)}) \ IssuedBy(S1)}
     \cup {Tag("arb", s) : s \in Arb(ArbPairLen) \ IssuedBy(S1)}
 TokensFor(ck) ==
@@ -105,6 +108,9 @@ TokensFor(ck) ==
            \cup {Tag("other", s) : s \in IssuedBy(S2)}
            \cup {Tag("mut", s) : s \in (UNION {Muts(x) : x \in IssuedBy(S1)}) \ IssuedBy(S1)}
            \cup {Tag("arb", s) : s \in Arb(ArbTokLen) \ IssuedBy(S1)}
+           \cup {Tag("empty", s) : s \in Empties}
+    ELSE IF ck.kind = "empty"
+      THEN {Tag("empty", s) : s \in Empties} \cup {Tag("issued", s) : s \in IssuedBy(S1)}
     ELSE IF ck.kind = "mut"
       THEN {Tag("issued", s) : s \in IssuedBy(S1)}
     ELSE {Tag("arb", s) : s \in Arb(ArbPairLen)} \cup {Tag("issued", s) : s \in IssuedBy(S1)}
@@ -149,6 +155,8 @@ AcceptSound == (IsPost /\ exp.ran) =>
                   LET t == DecodeToken(sc.token.s)
                       c == DecodeToken(sc.cookie.s) IN
                   t.ok /\ c.ok /\ t.tok = c.tok /\ Len(t.tok) > 0
+(* the empty secret is never accepted *)
+EmptyRejected == (IsPost /\ (sc.token.kind = "empty" \/ sc.cookie.kind = "empty")) => ~exp.ran
 (* never a server error, 403 exactly on rejection *)
 StatusOK == sc.mode = "post" => ((exp.ran /\ exp.status = 200) \/ (~exp.ran /\ exp.status = 403))
 (* unchecked methods always reach the handler *)
